@@ -174,5 +174,56 @@ def g_column(tier, seed):
     return out
 
 
+def g_height_sequence(direction):
+    """one grid position, four calls in one run: without a height, with a height of exactly 0.0, without a height again, with the
+    integer 0 - "no height" (the sentinel False) and "height zero" are different requests although False == 0 == 0.0 in Python; each
+    call is proved equal to the stepwise definition for ITS request"""
+    def g(tier, seed):
+        gc, tr = _mods()
+        S = make_summaries(gc)
+        fn = tr.transform_mga94_to_mga2020 if direction == 'fwd' else tr.transform_mga2020_to_mga94
+        T = gc.gda94_to_gda2020 if direction == 'fwd' else -gc.gda94_to_gda2020
+        out = []
+        for order in (('absent', 'zero', 'absent', 'izero'), ('zero', 'absent', 'izero', 'absent')):
+            def run():
+                zone = fresh_real('zone', 1, 60, is_int=True)
+                east, north = fresh_real('east', 100000, 900000), fresh_real('north', 1000000, 9500000)
+                rs = []
+                for k in order:
+                    rs.append(fn(zone, east, north) if k == 'absent' else fn(zone, east, north, 0.0 if k == 'zero' else 0))
+                return (zone, east, north), rs
+            with swap_globals(tr, **S):
+                paths, st = explore(run, max_paths=30)
+            mk = lambda env: {'env': env, 'dir': direction, 'height': 'sequence', 'vcv': 'absent'}
+            nret = 0
+            for p in paths:
+                if p.kind != 'return':
+                    out.append(ob.decide_goal('O1', '%s, calls %s: no exception (%s)' % (fn.__name__, '/'.join(order), p.value), ob.path_conds(p),
+                                              z3.BoolVal(False), pid=PID, oracle='oracles.c13:pipeline', args_from_model=mk, key='O1:raises'))
+                    continue
+                nret += 1
+                (zone, east, north), rs = p.value
+                for i, (k, o) in enumerate(zip(order, rs)):
+                    h = False if k == 'absent' else 0
+                    ez, ee, en, eh, ev = expected(S, T, zone, east, north, h, None)
+                    if not (isinstance(o, tuple) and len(o) == 5):
+                        out.append(ob.ground_violation('O1', '%s returns %r' % (fn.__name__, o), PID, 'O1:shape', 'oracles.c13:pipeline', mk({})))
+                        continue
+                    goal = [toz(o[0]) == toz(ez), toz(o[1]) == toz(ee), toz(o[2]) == toz(en)]
+                    if h is False:
+                        goal.append(toz(o[3]) == 0 if isinstance(o[3], SymReal) else z3.BoolVal(o[3] == 0))
+                    else:
+                        goal.append(ob.zabs(toz(o[3]) - toz(eh)) <= ratval(H4) if isinstance(o[3], SymReal) else z3.BoolVal(False))
+                    out.append(ob.decide_goal('O1', '%s, call %d of %s at one position (%s): the stepwise definition for this request'
+                                              % (fn.__name__, i + 1, '/'.join(order), 'no height: height 0 returned' if h is False else 'height 0: transformed height returned'),
+                                              ob.path_conds(p), z3.And(*goal), pid=PID, oracle='oracles.c13:pipeline', args_from_model=mk,
+                                              key='O1:pipeline', timeout_s=15))
+            if nret == 0:
+                out.append(ob.res('O1', '%s height sequence' % fn.__name__, 'inconclusive', [], 'no returning path'))
+        return out
+    return g
+
+
 def groups(tier):
-    return [('wiring_94_to_2020', g_wiring('fwd')), ('wiring_2020_to_94', g_wiring('rev')), ('column', g_column)]
+    return [('wiring_94_to_2020', g_wiring('fwd')), ('wiring_2020_to_94', g_wiring('rev')), ('column', g_column),
+            ('height_sequence_94_to_2020', g_height_sequence('fwd')), ('height_sequence_2020_to_94', g_height_sequence('rev'))]
